@@ -2,7 +2,7 @@
 From Coq Require Import List NArith ZArith Bool.
 Import ListNotations.
 From PF Require Import Opcodes Config Sim Heap.
-From PF.proofs Require Import HeapP.
+From PF.proofs Require Import HeapP ReleaseP.
 
 (* Heap.v models the simulated objects at the level of Rc<RefCell<..>> cells: which cells exist,
    which cell every stack slot and memo entry refers to, and the children of each cell.  With
@@ -29,7 +29,8 @@ Theorem C14_step : forall v h t, wf_heap h -> GC (cells h) -> step_guard h t -> 
 Proof. exact step_GC. Qed.
 Print Assumptions C14_step.
 
-(* (3) The complement is inhabited - the known finding: a container inserted into itself.
+(* (3) The complement is inhabited - histories on which cycles do arise while generating (finding I, before
+   the repair these cells were never freed): a container inserted into itself.
    EMPTY_LIST; DUP; APPEND makes cell 0 its own child. *)
 Example C14_class_witness :
   let ts := [(EMPTY_LIST, A0); (DUP, A0); (APPEND, A0)] in
@@ -46,3 +47,25 @@ Example C14_nonvacuous :
   let ts := [(EMPTY_LIST, A0); (DUP, A0); (NONE, A0); (APPEND, A0); (TUPLE2, A0)] in
   has_cycle (cells (heap_run V2 (heap_init V2) ts)) = false.
 Proof. vm_compute. reflexivity. Qed.
+
+(* (4) What reset() and Drop leave behind (src/state.rs: State::release_cycles empties every cell
+   that State::mutated registered, i.e. every cell an opcode modified in place): for EVERY protocol
+   and EVERY token sequence - no guard, no bound on length - the remaining cell graph has no cycle,
+   so reference counting frees every cell once the roots are gone.  Invariant: a cell that was never
+   modified in place only points to cells allocated before it (ReleaseP.Good, preserved by all 68
+   opcodes). *)
+Theorem C14_released : forall v ts, acyclic (final_cells v ts).
+Proof. exact final_cells_acyclic. Qed.
+Print Assumptions C14_released.
+
+Theorem C14_invariant : forall v ts h ms, wf_heap h -> Good ms (cells h) ->
+  Good (ms ++ run_mut v h ts) (cells (heap_run v h ts)).
+Proof. exact run_Good. Qed.
+Print Assumptions C14_invariant.
+
+(* the cyclic witness of (3) is released: cycle while generating, none afterwards *)
+Example C14_released_witness :
+  let ts := [(EMPTY_LIST, A0); (DUP, A0); (APPEND, A0)] in
+  has_cycle (cells (heap_run V2 (heap_init V2) ts)) = true /\ has_cycle (final_cells V2 ts) = false
+  /\ run_mut V2 (heap_init V2) ts = [0%nat].
+Proof. vm_compute. repeat split. Qed.
